@@ -144,18 +144,7 @@ def shapes_of(src, subset=None):
 
 
 def diff_obs(a, b):
-    out = []
-    if a['out'] != b['out']:
-        out.append('stdout differs: %r vs %r' % (a['out'][-200:], b['out'][-200:]))
-    if a['ending'] != b['ending']:
-        out.append('ending differs: %s vs %s' % (a['ending'], b['ending']))
-    if a['globals'] != b['globals']:
-        ks = sorted(set(a['globals']) | set(b['globals']))
-        d = [(k, a['globals'].get(k), b['globals'].get(k)) for k in ks if a['globals'].get(k) != b['globals'].get(k)]
-        out.append('public namespace differs: %r' % (d[:4],))
-    if a.get('imports', []) != b.get('imports', []):
-        out.append('import events differ: %r vs %r' % (a.get('imports', [])[:8], b.get('imports', [])[:8]))
-    return out
+    return runobs.diff(a, b)
 
 
 def check_one(src, subset):
